@@ -191,7 +191,16 @@ fn build_any(api: Api, shape: &Shape, weights: &[u32], hits: &Arc<Vec<AtomicU64>
         Api::Dyn => {
             // odd-length lists use the weights scaled by 2^32 (same proportions, same zero pattern):
             // a usize weight must not be narrowed on the way in
-            let scale: usize = if weights.len() % 2 == 1 && weights.iter().all(|w| *w < 1 << 20) { 1 << 32 } else { 1 };
+            // ... and small weights (total <= 15) are scaled by 2^60: totals of about 2^62 .. 2^64, where reducing a
+            // random word modulo the total is visibly biased
+            let total: u64 = weights.iter().map(|w| u64::from(*w)).sum();
+            let scale: usize = if total <= 15 && weights.len() % 3 != 1 {
+                1 << 60
+            } else if weights.len() % 2 == 1 && weights.iter().all(|w| *w < 1 << 20) {
+                1 << 32
+            } else {
+                1
+            };
             let mut d: DynWeighted<Pop> = DynWeighted::new(nth(0), weights[0] as usize * scale);
             let warm = |d: &DynWeighted<Pop>, added: usize| {
                 if warm_after == Some(added) {
@@ -353,6 +362,10 @@ fn exec_one(
             let failing_chosen = n_invoked == 1 && invoked.iter().position(|h| *h > 0).is_some_and(|i| i >= live && weights[i] > 0);
             if failing_chosen {
                 obs.hit("fault.component-fail");
+            } else if pop.is_empty() && n_invoked == 0 {
+                // nobody can be selected from an empty population: a combination may say so itself, before it
+                // chooses a member (and before it looks at its weights) — no selection was delegated at all
+                obs.hit("probe.empty-population-reported-by-the-combination-itself");
             } else {
                 v.push(Violation::new(
                     "delegates-to-exactly-one-member",
